@@ -10,3 +10,8 @@ package options
 
 // reverse-proxy mode is fixed when the options are loaded
 //@ stable Options.ReverseProxy
+
+//@ prop C16
+//@ scan[real-client-ip-parser-writers] field-writers Options.realClientIPParser pkg/apis/options.(*Options).SetRealClientIPParser
+//@ scan[real-client-ip-parser-setter-callers] callers (*Options).SetRealClientIPParser pkg/validation.Validate
+//@ scan[reverse-proxy-option-writers] field-writers Options.ReverseProxy pkg/apis/options.NewOptions pkg/apis/options.(*LegacyOptions).ToOptions
